@@ -500,40 +500,19 @@ fn trace_here_doc(xtrace: Option<&mut XTrace>, target_fd: Fd, here_doc: &HereDoc
 
 mod here_doc;
 
-/// Performs a redirection.
-async fn perform<S>(
+/// Opens the file for a redirection and makes it the target file descriptor.
+///
+/// This function is the part of [`perform`] that runs after the original open
+/// file description at `target_fd` has been saved.
+async fn apply<S>(
     env: &mut Env<S>,
     redir: &Redir,
+    target_fd: Fd,
     xtrace: Option<&mut XTrace>,
-) -> Result<(SavedFd, Option<ExitStatus>), Error>
+) -> Result<Option<ExitStatus>, Error>
 where
     S: Runtime + 'static,
 {
-    let target_fd = redir.fd_or_default();
-
-    // Make sure target_fd doesn't have the CLOEXEC flag
-    if is_cloexec(env, target_fd) {
-        return Err(Error {
-            cause: ErrorCause::ReservedFd(target_fd),
-            location: redir.body.operand().location.clone(),
-        });
-    }
-
-    // Save the current open file description at target_fd to a new FD
-    let save = match env
-        .system
-        .dup(target_fd, MIN_INTERNAL_FD, FdFlag::CloseOnExec.into())
-    {
-        Ok(save_fd) => Some(save_fd),
-        Err(Errno::EBADF) => None,
-        Err(errno) => {
-            return Err(Error {
-                cause: ErrorCause::FdNotOverwritten(target_fd, errno),
-                location: redir.body.operand().location.clone(),
-            });
-        }
-    };
-
     // Prepare an FD from the redirection body
     let (fd_spec, location, exit_status) = match &redir.body {
         RedirBody::Normal { operator, operand } => {
@@ -574,8 +553,56 @@ where
         let _: Result<(), Errno> = env.system.close(target_fd);
     }
 
-    let original = target_fd;
-    Ok((SavedFd { original, save }, exit_status))
+    Ok(exit_status)
+}
+
+/// Performs a redirection.
+async fn perform<S>(
+    env: &mut Env<S>,
+    redir: &Redir,
+    xtrace: Option<&mut XTrace>,
+) -> Result<(SavedFd, Option<ExitStatus>), Error>
+where
+    S: Runtime + 'static,
+{
+    let target_fd = redir.fd_or_default();
+
+    // Make sure target_fd doesn't have the CLOEXEC flag
+    if is_cloexec(env, target_fd) {
+        return Err(Error {
+            cause: ErrorCause::ReservedFd(target_fd),
+            location: redir.body.operand().location.clone(),
+        });
+    }
+
+    // Save the current open file description at target_fd to a new FD
+    let save = match env
+        .system
+        .dup(target_fd, MIN_INTERNAL_FD, FdFlag::CloseOnExec.into())
+    {
+        Ok(save_fd) => Some(save_fd),
+        Err(Errno::EBADF) => None,
+        Err(errno) => {
+            return Err(Error {
+                cause: ErrorCause::FdNotOverwritten(target_fd, errno),
+                location: redir.body.operand().location.clone(),
+            });
+        }
+    };
+
+    match apply(env, redir, target_fd, xtrace).await {
+        Ok(exit_status) => {
+            let original = target_fd;
+            Ok((SavedFd { original, save }, exit_status))
+        }
+        Err(error) => {
+            // The target FD has not been modified, so the saved FD is no longer needed.
+            if let Some(save) = save {
+                let _: Result<(), Errno> = env.system.close(save);
+            }
+            Err(error)
+        }
+    }
 }
 
 /// `Env` wrapper for performing redirections.
